@@ -180,6 +180,89 @@ theorem prepare_rename_fail_partial (ρ : String → String) (hρ : ∀ a b, ρ 
     | edge a b d t => simp [Op.rename] at heq
     | fail r' => exact ⟨r', hop⟩
 
+/-! ### the order in which the keys of an object (and the options of a `!oneof`) are visited
+
+Go walks every object of a stage input / workflow output with `reflect.MapKeys` (random order).  The operations performed
+for an object are the concatenation of the operations of its entries, so another key order performs the same operations
+in another order (`object_key_order_ops`, for an object at ANY position: a step's input map, a nested map, an option of a
+`!oneof`, a workflow output); every `ConnectDependency` of a reference is idempotent (tolerated duplicate) and no
+operation of one entry can make an operation of a sibling entry fail or be skipped.  For the object of a workflow output
+the statement is lifted to the whole workflow: same operations, hence (both accepted) the same nodes and typed edges.
+Not proved: that acceptance itself is invariant under key order (validated by the differential: permuted renderings of
+every accepted workflow, 4 preparations of every text). -/
+
+theorem opsKvs_flatMap (R : Resolver) (cur : NodeId) (path : List String) :
+    ∀ kvs, opsKvs R cur path kvs = kvs.flatMap (fun kx => opsIn R cur (path ++ [kx.1]) kx.2)
+  | [] => by simp [opsKvs]
+  | (k, x) :: rest => by simp [opsKvs, opsKvs_flatMap R cur path rest]
+
+theorem opsOpts_flatMap (R : Resolver) (g : NodeId) :
+    ∀ opts, opsOpts R g opts = opts.flatMap (fun kx => optionHead g kx.1 ++ opsIn R (.option g kx.1) [] kx.2)
+  | [] => by simp [opsOpts]
+  | (k, x) :: rest => by simp [opsOpts, opsOpts_flatMap R g rest]
+
+theorem object_key_order_ops (R : Resolver) (cur : NodeId) (path : List String) {kvs kvs' : List (String × AIn)}
+    (h : kvs.Perm kvs') : (opsIn R cur path (.map kvs)).Perm (opsIn R cur path (.map kvs')) := by
+  simp only [opsIn, opsKvs_flatMap]
+  exact h.flatMap_right _
+
+theorem oneof_option_order_ops (R : Resolver) (cur : NodeId) (path : List String) (d : String)
+    {opts opts' : List (String × AIn)} (h : opts.Perm opts') :
+    (opsIn R cur path (.oneof d opts)).Perm (opsIn R cur path (.oneof d opts')) := by
+  have he : opts.isEmpty = opts'.isEmpty := isEmpty_perm h
+  simp only [opsIn, opsOpts_flatMap, he]
+  split
+  · exact List.Perm.refl _
+  · exact (h.flatMap_right _).append_left _
+
+theorem prepare_ops_perm_same_graph (po : List String) (wf wf' : Wf) (hperm : (wf.ops po).Perm (wf'.ops po))
+    (g g' : Graph String) (items items' : List (String × Item))
+    (h1 : prepare po wf = .ok (g, items)) (h2 : prepare po wf' = .ok (g', items')) :
+    (g.nodes.map (·.id)).Perm (g'.nodes.map (·.id)) ∧ g.edges.Perm g'.edges ∧ (∀ e, e ∈ g.edges ↔ e ∈ g'.edges) := by
+  obtain ⟨hrun, _, _⟩ := prepare_ok h1
+  obtain ⟨hrun', _, _⟩ := prepare_ok h2
+  have hn : (g.nodes.map (·.id)).Perm (g'.nodes.map (·.id)) := by
+    have e1 := runOps_ids hrun
+    have e2 := runOps_ids hrun'
+    simp only [Graph.empty, List.map_nil, List.nil_append] at e1 e2
+    rw [e1, e2]
+    exact (nodeIds_perm hperm).map _
+  have he : ∀ e, e ∈ g.edges ↔ e ∈ g'.edges := by
+    intro e
+    rw [edges_iff_ops hrun, edges_iff_ops hrun']
+    constructor
+    · rintro ⟨a, b, d, tol, hop, rfl⟩
+      exact ⟨a, b, d, tol, hperm.mem_iff.1 hop, rfl⟩
+    · rintro ⟨a, b, d, tol, hop, rfl⟩
+      exact ⟨a, b, d, tol, hperm.mem_iff.2 hop, rfl⟩
+  exact ⟨hn, perm_of_nodup_of_mem_iff (edges_nodup_of_run hrun) (edges_nodup_of_run hrun') he, he⟩
+
+/-- `wf` with the keys of the object of output `x` listed in another order -/
+def withOutputKeys (wf : Wf) (pre post : List (String × AIn)) (x : String) (kvs : List (String × AIn)) : Wf :=
+  { wf with outputs := pre ++ (x, .map kvs) :: post }
+
+theorem output_key_order_ops (po : List String) (wf : Wf) (pre post : List (String × AIn)) (x : String)
+    {kvs kvs' : List (String × AIn)} (h : kvs.Perm kvs') :
+    ((withOutputKeys wf pre post x kvs).ops po).Perm ((withOutputKeys wf pre post x kvs').ops po) := by
+  have hres : (withOutputKeys wf pre post x kvs).resolve po = (withOutputKeys wf pre post x kvs').resolve po := rfl
+  have e : ∀ k : List (String × AIn), (pre ++ (x, AIn.map k) :: post).isEmpty = false := by
+    intro k
+    cases pre <;> rfl
+  unfold Wf.ops
+  rw [hres]
+  simp only [withOutputKeys, e, List.flatMap_append, List.flatMap_cons, outputOps]
+  refine List.Perm.append_left _ (List.Perm.append_left _ ?_)
+  exact List.Perm.cons _ (List.Perm.append_right _ (object_key_order_ops _ _ _ h))
+
+/-- Listing the keys of the object of a workflow output in another order changes neither the node set nor the typed
+edge set of an accepted workflow. -/
+theorem prepare_output_key_order (po : List String) (wf : Wf) (pre post : List (String × AIn)) (x : String)
+    {kvs kvs' : List (String × AIn)} (h : kvs.Perm kvs') (g g' : Graph String) (items items' : List (String × Item))
+    (h1 : prepare po (withOutputKeys wf pre post x kvs) = .ok (g, items))
+    (h2 : prepare po (withOutputKeys wf pre post x kvs') = .ok (g', items')) :
+    (g.nodes.map (·.id)).Perm (g'.nodes.map (·.id)) ∧ g.edges.Perm g'.edges ∧ (∀ e, e ∈ g.edges ↔ e ∈ g'.edges) :=
+  prepare_ops_perm_same_graph po _ _ (output_key_order_ops po wf pre post x h) g g' items items' h1 h2
+
 /-! ### non-vacuity -/
 
 def po : List String := ["alt", "cancelled", "error", "success"]
@@ -214,5 +297,48 @@ def swapAB (s : String) : String := if s = "a" then "x1" else if s = "b" then "x
 example : sizeOf' (prepare po (demo.rename swapAB)) = (47, 63)
     ∧ ("steps.x1.outputs.success", "steps.x2.starting.s", Dep.and) ∈ impliedEdges po (demo.rename swapAB) := by
   decide +kernel
+
+/-! ### non-vacuity for the shapes with several references / tags / loop steps -/
+
+def plus (l r : Expr) : Expr := .call "+" [l, r]
+
+def abExpr : Expr :=
+  plus (plus (ref "a" ["outputs", "success", "s"]) (.call "boolToString" [ref "a" ["outputs", "success", "b"]]))
+    (ref "b" ["outputs", "success", "s"])
+
+def multiKvs : List (String × AIn) :=
+  [("xw", .optional true (ref "a" ["outputs", "success", "s"])),
+   ("xo", .optional false (ref "a" ["outputs", "success", "i"])),
+   ("m0", .expr (ref "a" ["outputs", "success", "s"])),
+   ("m1", .expr abExpr),
+   ("loop0", .expr (ref "la" ["outputs", "success", "data"])),
+   ("loop1", .expr (ref "lb" ["outputs", "success", "data"]))]
+
+/-- two plugin steps, two loop steps (different sub-workflow files are not part of the graph), an output object with a
+`!wait-optional`, a `!soft-optional` and a plain reference to the same source, a three-reference expression whose
+first producer is already connected, and the data of both loops -/
+def demoMulti : Wf :=
+  { inputFields := ["name"]
+    steps := [ { id := "a", kind := .plugin, fields := [("input", .map [])] },
+               { id := "b", kind := .plugin, fields := [("input", .map [("s", .expr (ref "a" ["outputs", "success", "s"]))])] },
+               { id := "la", kind := .foreach,
+                 fields := [("items", .list [.map [("name", .expr (ref "a" ["outputs", "success", "s"]))]])] },
+               { id := "lb", kind := .foreach,
+                 fields := [("items", .list [.map [("name", .lit "x"), ("n", .expr (ref "b" ["outputs", "success", "i"]))]])] } ]
+    outputs := [("success", .map multiKvs)] }
+
+example : demoMulti = withOutputKeys demoMulti [] [] "success" multiKvs := rfl
+
+/-- the same text with the keys of the output object in reverse order and the steps in reverse order -/
+def demoMultiSwapped : Wf :=
+  { withOutputKeys demoMulti [] [] "success" multiKvs.reverse with steps := demoMulti.steps.reverse }
+
+example : sizeOf' (prepare po demoMulti) = (66, 85) ∧ sizeOf' (prepare po demoMultiSwapped) = (66, 85) := by decide +kernel
+
+/-- whichever key is visited first, `b` is connected to the output, and both tagged fields keep their own group -/
+example : ("steps.b.outputs.success", "outputs.success", Dep.and) ∈ impliedEdges po demoMultiSwapped
+    ∧ ("outputs.success.xw", "outputs.success", Dep.cand) ∈ impliedEdges po demoMultiSwapped
+    ∧ ("outputs.success.xo", "outputs.success", Dep.opt) ∈ impliedEdges po demoMultiSwapped
+    ∧ ("steps.lb.outputs.success", "outputs.success", Dep.and) ∈ impliedEdges po demoMultiSwapped := by decide +kernel
 
 end Arca.Props.C16
